@@ -1,0 +1,50 @@
+//go:build verif
+
+// Contracts for the set-up part of the CSRF middleware (property C16): the vocabulary for New's trusted-origin loop
+// and normalizeOrigin (their contract blocks are in zz_contracts_verif.go: a function has one block). Comment-only file.
+//
+// What the handler closure (New$1) relies on - every exact entry is a normalised origin, every wildcard entry
+// "scheme://*.domain" is stored as prefix "scheme://" and suffix ".domain", so that (subdomain).match accepts only
+// scheme://<labels>.domain - is New's postcondition.
+// net/url is an assumed dependency: urlOK/urlScheme/urlHost/urlPath/urlQuery/urlFragment/urlHasUser are its view of a
+// string (deps/mw_C16.spec), with positional facts (scheme-is-lowered-head, host-needs-authority,
+// host-only-url-has-no-further-double-slash, host-starts-the-authority) stated there.
+//
+// Obligations that FAIL on the unchanged code for a genuine reason:
+//   New/safety:bounds:strslice#3 (recorded, replay c16_wildcard_leading_space_test.go) and, new with these contracts,
+//   New/inv:loop1.preserve:wildcard-entries-traced#2, ...:every-entry-listed#2
+//                               the same defect: a wildcard entry with leading blanks is split at the index the marker
+//                               had in the untrimmed entry (panic, or prefix "https://." / suffix "example.com")
+//   normalizeOrigin/post:valid-has-no-userinfo
+//                               "https://*.cdn@example.com" is accepted, the userinfo ".cdn" is dropped and the entry is
+//                               stored with suffix "example.com": https://evilexample.com becomes a trusted origin
+
+package csrf
+
+//@ props C16
+
+// validEntry(t): what normalizeOrigin accepts. layout(t): where scheme and host of a valid entry sit in its text (the
+// positional facts assumed of url.Parse, re-exported by normalizeOrigin for New, which sees only that contract).
+//@ macro validEntry(t) = urlOK(t) && (urlScheme(t) == "http" || urlScheme(t) == "https") && !strContains(urlHost(t), "*") && urlHost(t) != "" && (urlPath(t) == "" || urlPath(t) == "/") && urlQuery(t) == "" && urlFragment(t) == ""
+//@ macro normOf(t) = lower(urlScheme(t)) + "://" + lower(urlHost(t))
+//@ macro layout(t) = len(urlScheme(t)) + 3 < len(t) && t[len(urlScheme(t))] == ':' && t[len(urlScheme(t))+1] == '/' && t[len(urlScheme(t))+2] == '/' && urlScheme(t) == lower(t[:len(urlScheme(t))]) && forall(k, 0, len(urlScheme(t)), t[k] != ':' && t[k] != '/') &&
+//@ ..   forall(k, len(urlScheme(t)) + 3, len(t) - 1, !(t[k] == '/' && t[k+1] == '/')) &&
+//@ ..   (!urlHasUser(t) && t[len(urlScheme(t))+3] != '%' ==> urlHost(t)[0] == t[len(urlScheme(t))+3])
+
+// A wildcard entry e has the marker "://*." at markerAt(e) (its first occurrence); the '*' is taken out (destar), blanks
+// are trimmed, the rest is normalised like an exact entry and split behind "scheme://".
+//@ macro blank() = ' '
+//@ macro destar(e, i) = e[:i+3] + e[i+4:]
+//@ macro markerAt(e) = strIndex(e, "://*.")
+//@ macro wildText(e) = trimmed(destar(e, markerAt(e)), blank())
+//@ macro lead(e, i) = trimLead(destar(e, i), blank())
+//@ macro cur() = cfg.TrustedOrigins[rangeindex+1]
+//@ macro exactFrom(x, e) = markerAt(e) == -1 && validEntry(trimmed(e, blank())) && x == normOf(trimmed(e, blank()))
+//@ macro wildFrom(p, s, e) = markerAt(e) >= 0 && validEntry(wildText(e)) && p == lower(urlScheme(wildText(e))) + "://" && s == lower(urlHost(wildText(e)))
+// sdShape(p, s): p is "scheme://" (no ':' or '/' inside the scheme), s starts with '.', both in lower case.
+//@ fn sdShape(p string, s string) bool = len(p) > 3 && p[len(p)-3:] == "://" && forall(k, 0, len(p)-3, p[k] != ':' && p[k] != '/') && len(s) > 0 && s[0] == '.' && p == lower(p) && s == lower(s)
+//@ macro exactTraced(n) = forall(k, 0, len(trustedOrigins), exists(j, 0, n, exactFrom(trustedOrigins[k], cfg.TrustedOrigins[j])))
+//@ macro wildTraced(n) = forall(k, 0, len(trustedSubOrigins), exists(j, 0, n, wildFrom(trustedSubOrigins[k].prefix, trustedSubOrigins[k].suffix, cfg.TrustedOrigins[j])))
+//@ macro wildShaped() = forall(k, 0, len(trustedSubOrigins), sdShape(trustedSubOrigins[k].prefix, trustedSubOrigins[k].suffix))
+//@ macro exactLower() = forall(k, 0, len(trustedOrigins), trustedOrigins[k] == lower(trustedOrigins[k]))
+//@ macro entryListed(e) = (markerAt(e) == -1 ==> exists(k, 0, len(trustedOrigins), trustedOrigins[k] == normOf(trimmed(e, blank())))) && (markerAt(e) >= 0 ==> exists(k, 0, len(trustedSubOrigins), trustedSubOrigins[k].prefix == lower(urlScheme(wildText(e))) + "://" && trustedSubOrigins[k].suffix == lower(urlHost(wildText(e)))))
